@@ -58,6 +58,15 @@ TEXT = {
             "(Default, empty, deserialized) with every argument of a boundary alphabet, in both build profiles, under monitors that turn "
             "panics, aborts, signals and sanitizer reports into failing executions.", "§4 C04",
             "bounded-exhaustive enumeration of states x methods x arguments under fault monitors (panic trap, signal journal, UB checks, ASan)"),
+    "C14": (E1[0], "Every point of a grid of lengths (incl. 2^k+1, just after a capacity doubling), alphabet sizes, shapes, types and "
+            "construction paths is built under a counting allocator and the retained bytes are compared with the stated bound.", "§4 C14",
+            "bounded-exhaustive grid exploration with an allocation monitor on the real code"),
+    "C15": (E1[0], "Every profile x scale x arrangement of a grid is built under a counting allocator; retained bits are compared with "
+            "n*(H0+2) resp. n*(H0+1) plus the stated overheads, and with the plain tree over the same sequence.", "§4 C15",
+            "bounded-exhaustive grid exploration with an allocation monitor on the real code"),
+    "C16": (E1[0], "For every type implementing SpaceUsage and every grid point, space_usage_byte() is compared with the bytes actually "
+            "kept alive (counting allocator + size_of_val); the scaled variants are compared exactly.", "§4 C16",
+            "bounded-exhaustive grid exploration with an allocation monitor on the real code"),
 }
 
 NOTE = {
@@ -66,6 +75,9 @@ NOTE = {
     "C03": "Trusted: reference model, hook permutation code. Known finding KF2 (binary codes > 32 bits).",
     "C08": "Trusted: Vec<bool> reference, stateright's BFS. Known finding KF1 (BitVectorMut::get_bits off by one, pinned by the repository's own test). Depth bounds in the evidence.",
     "C04": "Trusted: the allow-list of documented panics (matched on the documented condition, not the message), the signal journal, std's unsafe-precondition checks / ASan for out-of-bounds accesses that do not fault. utils::* free functions are C17's subject.",
+    "C14": "Trusted: counting allocator; constants C=2048 bytes/level, C0=512, +1% calibrated with head-room on the current tree. n large enough for the factor to dominate: >= 2^16.",
+    "C15": "Trusted: counting allocator; H0 computed by the harness; table allowance 10*(m+1)+40*distinct+4096 bytes.",
+    "C16": "Trusted: counting allocator. Tolerance 2% + 256 bytes per component + 512 (the property's 'few percent plus a constant per component').",
     "C09": "Trusted: the explorer's digest; rank itself is validated by C01/C02. Prefetch intrinsics have no architectural effect, so only panics, faults and answer changes are observable. Known finding KF2 does not arise below 17 levels.",
     "C10": "Trusted: the reference model decides which arguments satisfy the precondition. Known finding KF1 (BitVectorMut::get_bits None at index+len==len while get_bits_unchecked answers).",
     "C11": "Trusted: bincode; PartialEq of the types (also exercised by C19).",
@@ -119,6 +131,8 @@ def main():
              "kind_free_text": "E1 differential explorers: prefetch vs plain rank and feature on/off digests, unchecked vs checked, bincode round trip, construction paths / clones / widths"},
             {"name": "mc_safety", "path": "/verif/mc/src/bin/mc_safety.rs", "serves_properties": ["C04"],
              "kind_free_text": "state zoo x method x argument sweep under panic / signal / UB-check / ASan monitors"},
+            {"name": "mc_space", "path": "/verif/mc/src/bin/mc_space.rs", "serves_properties": ["C14", "C15", "C16"],
+             "kind_free_text": "grid explorer with a counting global allocator"},
             {"name": "mc_vectors", "path": "/verif/mc/src/bin/mc_vectors.rs", "serves_properties": ["C05", "C06", "C07"],
              "kind_free_text": "E1 bounded-exhaustive input-space explorer for RSQVector, RSNarrow/RSWide and DArray"},
         ],
